@@ -157,8 +157,19 @@ func (s *Service) ScheduleJob(ctx context.Context,
 			verifPoint(job, "GTInactive")
 			s.removeJob(name, job)
 			verifPoint(job, "GTDeleted")
+			// The job may have been cancelled since the timer fired: CancelJob() has then taken it off
+			// the jobs list and reported success, so it must not run.  Claim the job under the state lock.
+			job.stateLock.Lock()
+			if job.finalised.Load() {
+				job.stateLock.Unlock()
+				s.log.Trace().Str("job", name).Time("scheduled", runtime).Msg("Cancel triggered; job not running")
+				finaliseJob(job)
+				monitorJobCancelled(class)
+				break
+			}
 			s.log.Trace().Str("job", name).Time("scheduled", runtime).Msg("Timer triggered; job running")
 			job.active.Store(true)
+			job.stateLock.Unlock()
 			verifPoint(job, "GTClaimed")
 			monitorJobStartedOnTimer(class)
 			jobFunc(ctx)
